@@ -16,4 +16,14 @@ TEXTS = {
   "note": "Trusted base: harness/srv encoder, canon dump, xport transport. Equality is on reflection dumps of the delivered packages. The reference delivery must be clean or the response is discarded and counted.",
   "technique": "runtime monitoring: metamorphic differential delivery through the real reader goroutine and Channel.WritePacket, exhaustive cut enumeration + seeded partitions",
  },
+ "C01": {
+  "text": "Wire-capture monitor on the transport behind a real Conn: for messages of total length k*(ps-8)+d (k 1..3, d in {-1,0,+1}) plus tiny and seeded lengths, built from 7 client package kinds, with the packet size announced by the peer through ENVCHANGE between messages (quick: 49 sizes; thorough: every size 256..65535), 6 header types, both call splits, 3-6 successive messages per channel, channel 0 and a logical channel, every write record must be exactly one packet, bodies must concatenate to the packages' flat encodings, all but the last full, EOM on the last and only there, type/channel id/packet numbers correct. Exhaustive over packet sizes at the boundary lengths in thorough; held-on-observed.",
+  "note": "Trusted base: the harness's flat recording BytesChannel (what the packages write) and header parser. Package encodings themselves are C06's subject. A packet-size change in the middle of a half-queued message is not in the property and not generated.",
+  "technique": "runtime monitoring: transport write capture + framing/conservation oracle, boundary enumeration over all packet sizes",
+ },
+ "C18": {
+  "text": "Recorded concurrent histories (1000 quick / 20000 thorough, up to 2k operations, 1..64 goroutines, GOMAXPROCS 1..16, forced GCs, hand-overs, double releases, Release(nil)) are checked by porcupine against a per-id held-bit model, by an online holder-map monitor (insert after Acquire returned, delete before Release is called), and by direct assertions on every name (id != 0, text == format applied to id for integer-verb formats, cleared after release); the whole workload runs under the Go race detector and a race report with a go-dblib frame is a violation. Held on the observed histories.",
+  "note": "Trusted base: porcupine v1.3.0, the held-bit model, the race detector. Text is judged only for formats with exactly one integer verb; names change goroutine only through a channel (unordered releases of one *Name are misuse).",
+  "technique": "runtime monitoring: linearizability checking of recorded histories (porcupine, partitioned by id) + online uniqueness monitor + race detector",
+ },
 }
